@@ -74,6 +74,12 @@ def fp_file_op(rng, npaths):
         return "Fc%d" % p
     if r < 0.76:
         return "Fd%d" % p
+    if r < 0.84:
+        # the stat fails / answers again without the file changing: error -> success with a statbuf
+        # identical to the last good one, error -> other error, error at the very first poll
+        return "Fe%d,%d" % (p, rng.choice([2, 13, 0, 0, 0]))
+    if r < 0.88:
+        return rng.choice(["Fh", "Fs", "Fs"])        # the directory of the odd paths is renamed away / back
     # a change in exactly one field of the answers (what a real file system rarely gives)
     return "Fo%d,%d,%d" % (p, rng.choice([0, 1, 2, 3, 4, 5, 6, 6, 7, 8, 9, 10, 11, 14]), rng.choice([1, 1, 2, -1]))
 
@@ -89,9 +95,27 @@ def fp_case_simple(rng, t0):
     ops += ["I"] * n
     ivs = [rng.choice(INTERVALS) for _ in range(n)]
     ops += ["S%d,%d,%d,%d,0" % (h, rng.randint(1, 3), h, ivs[h]) for h in range(n)]
+    if rng.random() < 0.3:                           # an error at the very first poll
+        ops.insert(len(ops) - n, "Fe%d,%d" % (rng.randrange(n), rng.choice([2, 13])))
+    episode = []                                     # pending steps of an error episode
     for _ in range(rng.randint(3, 12)):
-        while rng.random() < 0.55:
-            ops.append(fp_file_op(rng, n))
+        if episode:
+            ops.append(episode.pop(0))
+        elif rng.random() < 0.35:
+            p = rng.randrange(n)
+            kind = rng.random()
+            if kind < 0.5 or not (p & 1):
+                # fails for 1-3 polls (possibly with two different errors), then answers as before
+                episode = ["Fe%d,%d" % (p, rng.choice([2, 13]))] + [rng.choice(["", "", "Fe%d,%d" % (p, rng.choice([2, 13]))])
+                                                                    for _ in range(rng.randint(0, 2))] + ["Fe%d,0" % p]
+            else:
+                episode = ["Fh"] + [""] * rng.randint(0, 2) + ["Fs"]
+            episode = [e for e in episode]
+            ops.append(episode.pop(0))
+        else:
+            while rng.random() < 0.45:
+                ops.append(fp_file_op(rng, n))
+        ops = [o for o in ops if o]
         ops += ["K", "R", "A%d" % rng.choice([1, 3, 10, 25, 30]), "R"]
         if rng.random() < 0.15:
             ops.append("O")
